@@ -161,9 +161,13 @@ def ddmin(items, still_fails, budget=1500):
     n = 2
     items = list(items)
     evals = [0]
+    t_end = time.time() + float(os.environ.get("VERIF_SHRINK_SECONDS", "40"))
 
     def test(x):
         evals[0] += 1
+        if time.time() > t_end:
+            evals[0] = budget
+            return False
         try:
             return still_fails(x)
         except Exception:  # noqa: BLE001
